@@ -1255,7 +1255,14 @@ func collectInlined(fn *ssa.Function, blocks map[*ssa.BasicBlock]bool, within ma
 				continue
 			}
 			*out = append(*out, inlinedCall{c, bs})
-			if f := c.Common().StaticCallee(); f != nil && within[f] && f != fn && f.Blocks != nil {
+			f := c.Common().StaticCallee()
+			if f == nil && !c.Common().IsInvoke() {
+				// a closure or function variable of an inlined function
+				if t := closureTarget(c.Common().Value, 0); t != nil && (within[t] || (t.Parent() != nil && within[t.Parent()])) {
+					f = t
+				}
+			}
+			if f != nil && (within[f] || (f.Parent() != nil && within[f.Parent()])) && f != fn && f.Blocks != nil {
 				nb := bindings{}
 				for k, v := range bs {
 					nb[k] = v
